@@ -153,6 +153,25 @@ class LoopSpec:
         self.unroll = unroll
 
 
+def and_mask_formula(x, m):
+    """x & m for a constant mask m >= 0 and EVERY integer x (negative too), in integer arithmetic: Python's &
+    acts on the infinite two's-complement form, whose bit k is (x // 2^k) % 2 with floor division, so
+    x & m = sum over the mask's bit runs [lo, hi) of ((x // 2^lo) % 2^(hi-lo)) * 2^lo.
+    Dual use (symbolic or plain ints); cross-checked against CPython's & on plain ints by the static check
+    `and-mask-formula-agrees-with-cpython` of contracts/C05_input.py."""
+    total = 0
+    k = 0
+    while (1 << k) <= m:
+        if m >> k & 1:
+            lo = k
+            while m >> k & 1:
+                k += 1
+            total = total + ((x // (1 << lo)) % (1 << (k - lo))) * (1 << lo)
+        else:
+            k += 1
+    return total
+
+
 class Interp:
     """One interpreter per verification task."""
 
@@ -990,18 +1009,7 @@ class Interp:
         if t is ast.BitAnd and (isinstance(a, int) or isinstance(b, int)):
             x, m = (b, a) if isinstance(a, int) else (a, b)
             if m >= 0:
-                self._require_nonneg(st, x, "&")
-                total = 0
-                k = 0
-                while (1 << k) <= m:
-                    if m >> k & 1:
-                        lo = k
-                        while m >> k & 1:
-                            k += 1
-                        total = total + ((x // (1 << lo)) % (1 << (k - lo))) * (1 << lo)
-                    else:
-                        k += 1
-                return total
+                return and_mask_formula(x, m)
         if t is ast.BitOr:
             for k in (6, 12, 18, 8, 16, 4, 2, 1, 24, 7, 9, 10, 32):
                 for x, y in ((a, b), (b, a)):
